@@ -128,3 +128,45 @@ func init() {
 		},
 	})
 }
+
+func init() {
+	register(&Prop{
+		ID:          "C01",
+		Run:         RunC01,
+		Replay:      func(c *Ctx, entry, input string) { CheckC01(c, entry, input) },
+		Rule:        "cases = (entry, input) accepted without error, from the corpus under its entries and list entries, type seeds, generated sentences of grammar G under all renderers, and the accepted fraction of token mutants; each is unparsed, re-parsed with the same entry, compared modulo positions (validity must agree) and unparsed again (fixed point); distinct_nontrivial = distinct accepted (entry,input)",
+		Assumptions: []string{"equality modulo positions is reflective over all exported fields; nil and empty slices are considered equal"},
+		Floors: func(m *Merged) []string {
+			if m.Counters["accepted"] < 1000 {
+				return []string{"fewer than 1000 accepted inputs"}
+			}
+			return nil
+		},
+	})
+	register(&Prop{
+		ID:          "C11",
+		Run:         RunC11,
+		Replay:      func(c *Ctx, entry, input string) { CheckC11(c, entry, input) },
+		Rule:        "cases = ';'-joined lists of 1-4 corpus statements (all kinds -> ParseStatements, DDL -> ParseDDLs, DML -> ParseDMLs), some token-mutated, plus end-of-input-sensitive statements (trailing select-list comma), literals and comments containing ';', with hostile trivia / empty statements around the separators; list parse vs SplitRawStatements + single parse of each piece with >= 1 token; distinct_nontrivial = distinct lists with >= 2 statements",
+		Assumptions: []string{"'lexes without error' is decided by memefish.Lexer (checked by C13/C14)"},
+		Floors: func(m *Merged) []string {
+			if m.Counters["lists_clean"] == 0 || m.Counters["lists_with_error"] == 0 || m.Counters["empty_pieces"] == 0 || m.Counters["positions_compared"] == 0 {
+				return []string{"clean lists, failing lists, empty pieces and position comparisons must be observed"}
+			}
+			return nil
+		},
+	})
+	register(&Prop{
+		ID:          "C12",
+		Run:         RunC12,
+		Replay:      func(c *Ctx, entry, input string) { CheckC12(c, input) },
+		Rule:        "cases = input strings: statement lists of C11's workload, exhaustive strings up to 6 (quick) / 7 (thorough) symbols over {a ; ' \" ` - / * # LF SP \\}, token soups and hostile random bytes; pieces are checked against the independent reference lexer's tokens and comments; distinct_nontrivial = distinct accepted inputs with >= 1 ';' token and >= 1 other token",
+		Assumptions: []string{"the reference lexer decides 'has a lexical error'; inputs where it answers unspecified are not judged"},
+		Floors: func(m *Merged) []string {
+			if m.Counters["ref_accept"] == 0 || m.Counters["ref_reject"] == 0 || m.Counters["comments"] == 0 || m.Counters["semicolons"] == 0 {
+				return []string{"accepted and rejected inputs, comments and semicolons must be observed"}
+			}
+			return nil
+		},
+	})
+}
